@@ -97,7 +97,7 @@ fn mutation() -> BoxedStrategy<Mutation> {
 }
 
 fn forged_handshake() -> BoxedStrategy<Op> {
-    let signer = prop_oneof![6 => (0u8..2).prop_map(Signer::Adv), 1 => Just(Signer::Garbage), 1 => Just(Signer::Empty), 1 => Just(Signer::Truncated)];
+    let signer = prop_oneof![6 => (0u8..2).prop_map(Signer::Adv), 1 => Just(Signer::Garbage), 1 => Just(Signer::Empty), 1 => Just(Signer::Truncated), 2 => (0u8..2, 0u8..6).prop_map(|(j, t)| Signer::AdvExtended(j, t))];
     let eph = prop_oneof![6 => Just(EphKey::Valid), 1 => Just(EphKey::InvalidPoint), 1 => Just(EphKey::WrongLength)];
     let seq = prop_oneof![1 => Just(SeqSel::Zero), 1 => Just(SeqSel::BelowKnown), 1 => Just(SeqSel::EqualKnown), 3 => Just(SeqSel::AboveKnown), 1 => Just(SeqSel::Max)];
     let af = prop_oneof![2 => Just(AddrField::MatchingSource), 1 => Just(AddrField::Other), 1 => Just(AddrField::Absent)];
@@ -152,6 +152,7 @@ pub fn op_strategy(n_peers: u8, mix: Mix) -> BoxedStrategy<Op> {
     let guessed = (peer(), node(), 0u8..3, prop_oneof![Just(ForgedBody::Ping), Just(ForgedBody::Talk)])
         .prop_map(|(peer, to, key, body)| Op::GuessedKeyMessage { peer, to, key, body })
         .boxed();
+    let replay_hs = (prop_oneof![4 => Just(0u8), 2 => Just(1u8), 1 => 2u8..6], prop_oneof![3 => Just(AddrSel::Original), 1 => addr_sel()]).prop_map(|(nth, from)| Op::ReplayHandshake { nth, from }).boxed();
     let mut all = honest;
     match mix {
         Mix::Faulty => {}
@@ -170,11 +171,13 @@ pub fn op_strategy(n_peers: u8, mix: Mix) -> BoxedStrategy<Op> {
             all.push((16, forged_handshake()));
             all.push((6, forged_msg));
             all.push((4, replay));
+            all.push((2, replay_hs));
             all.push((3, forged_wru));
             all.push((3, submit_att));
         }
         Mix::Replay => {
             all.push((14, replay));
+            all.push((4, replay_hs));
             all.push((6, forged_wru));
             all.push((2, probe));
         }
@@ -284,6 +287,23 @@ pub fn ops_strategy(n_peers: u8, mix: Mix, max_fragments: usize) -> BoxedStrateg
             ]
         })
         .boxed();
+    // a handshake packet is accepted, then presented again - at once, while the session is in use, after
+    // the challenge lifetime
+    let replay_accepted = (0u8..n, 0u8..n, any::<bool>(), prop_oneof![3 => Just(AddrSel::Original), 1 => addr_sel()], prop_oneof![2 => Just(None), 1 => Just(Some(Dt::TimeoutFrac40)), 1 => Just(Some(Dt::TimeoutPlus))], any::<bool>())
+        .prop_map(|(from, to, with_record, addr, wait, use_session)| {
+            let mut v = vec![Op::DeliverAll, Op::Submit { from, to, body: Body::Ping, with_record }, Op::Deliver(0), Op::AnswerWru { node: to, sel: 0, know: Know::Current }, Op::DeliverAll];
+            if use_session {
+                v.push(Op::Submit { from, to, body: Body::Ping, with_record });
+                v.push(Op::DeliverAll);
+            }
+            if let Some(dt) = wait {
+                v.push(Op::Advance(dt));
+            }
+            v.push(Op::ReplayHandshake { nth: 0, from: addr });
+            v.push(Op::DeliverAll);
+            v
+        })
+        .boxed();
     // many requests to one peer that never answers: they all end in one go (more outcomes at once than
     // the handler's channel to the application holds)
     let burst_fail = (0u8..n, 0u8..n, 52u8..100, any::<bool>())
@@ -347,10 +367,10 @@ pub fn ops_strategy(n_peers: u8, mix: Mix, max_fragments: usize) -> BoxedStrateg
     })
     .boxed();
     let frag = match mix {
-        Mix::Identity => prop_oneof![18 => single, 12 => attack, 2 => spoof_race, 1 => early_replay].boxed(),
+        Mix::Identity => prop_oneof![18 => single, 12 => attack, 2 => spoof_race, 1 => early_replay, 2 => replay_accepted].boxed(),
         Mix::Exemptions => prop_oneof![6 => single, 1 => attack].boxed(),
         Mix::Tamper => prop_oneof![30 => single, 6 => exchange, 1 => spoof_race, 1 => old_key_fallback].boxed(),
-        Mix::Replay => prop_oneof![30 => single, 6 => exchange, 1 => late_handshake, 1 => early_replay].boxed(),
+        Mix::Replay => prop_oneof![30 => single, 6 => exchange, 1 => late_handshake, 1 => early_replay, 2 => replay_accepted].boxed(),
         _ => prop_oneof![60 => single, 1 => burst_fail, 2 => slow_challenge].boxed(),
     };
     proptest::collection::vec(frag, 1..max_fragments)
